@@ -104,6 +104,8 @@ func judgeForCase(c forCase, rec *hx.Rec) string {
 		add(i.EquTwoLevelsDeep, "equ_defined_two_levels_deep")
 		add(i.LabelsInDeadBlock, "labelled_blocks_inside_a_zero_count_block")
 		add(i.EquWeb, "equ_values_naming_several_earlier_equs")
+		add(i.ConstCount, "count_names_a_predefined_constant")
+		add(i.SignRunEqu, "equ_value_with_a_run_of_signs")
 		add(i.EquByCounter, "equ_defined_in_one_copy_chosen_by_the_count_variable")
 		add(i.Nested, "nested")
 		add(i.ZeroCount, "zero_count")
